@@ -629,9 +629,13 @@ def replay(ctx, path):
     obj = json.load(open(path))
     print(json.dumps({k: v for k, v in obj.items() if k not in ("model_state", "models")}, indent=1)[:4000])
     labels, models = obj.get("labels"), obj.get("models")
+    ctx.known = []
+    if obj.get("kind") in ("large-offset-layout", "shallow-clone-layout"):
+        (large_offset_layout if obj["kind"] == "large-offset-layout" else shallow_clone_layout)(ctx)
+        print("result:", "VIOLATION reproduced" if ctx.violations else "no violation on the current tree")
+        return 1 if ctx.violations else 0
     if not labels or not models:
         return 0
-    ctx.known = []
     n = len(labels)
     whos = [None] * (n - 1) + [obj.get("who_last")]
     root, scratch = ctx.tmpdir("beh"), ctx.tmpdir("behs")
